@@ -1325,7 +1325,8 @@ def main(repo: str, outdir: str, dry: bool = False) -> int:
     def f_hookshape():
         import py2lean_post
         try:
-            body = py2lean_post.gen_hook_shape(src("solvers/scipy_solver.py"))
+            body = (py2lean_post.gen_hook_shape(src("solvers/scipy_solver.py")) + "\n"
+                    + py2lean_post.gen_limit_shape(src("core/autodiff.py"), os.path.join(repo, "src/optyx")))
         except py2lean_post.TranslateError as e:
             raise TranslateError(str(e))
         return HEADER + "namespace Optyx.Generated\n\n" + body + "\nend Optyx.Generated\n"
